@@ -22,6 +22,12 @@ fn main() {
                 "thorough" => Tier::Thorough,
                 _ => usage(),
             };
+            // wall-clock limits: inconclusive (exit 2) when hit, never a violation
+            let (per_case, total) = match tier {
+                Tier::Quick => (120, 3_600),
+                Tier::Thorough => (600, 6 * 3_600),
+            };
+            vh::runner::spawn_watchdog(args[2].clone(), per_case, total);
             driver::run_generic(&args[2], tier)
         }
         "part" => {
@@ -30,6 +36,7 @@ fn main() {
                 usage();
             }
             let tier = if args[3] == "thorough" { Tier::Thorough } else { Tier::Quick };
+            vh::runner::spawn_watchdog("C03".to_string(), if tier == Tier::Quick { 120 } else { 600 }, if tier == Tier::Quick { 3_600 } else { 6 * 3_600 });
             driver::run_c03(tier, Some(&args[4]))
         }
         "hunt" => {
